@@ -13,10 +13,10 @@ func init() {
 	register(&PropertyDef{
 		ID:    "C09",
 		Title: "Concurrent sends never reuse a counter, key or nonce; chain only moves forward",
-		Explanation: "Decides, for every schedule at once, the locking and arithmetic shape that makes counters unique: (D1) in SealEnvelope the read of the own chain key, the sealing (secretbox.Seal, Sign), the write of the next precomputed key and the write of the advanced chain key all happen with the secret store's message mutex write-held, acquired once before the first of them, with no release of that mutex anywhere in the code reachable from those steps; (D3) every Put on the chain-key namespace that can overwrite an existing entry is reached only on call paths holding that write lock (creation puts, dominated by the 'no chain key stored' outcome of a lookup, are exempt: they cannot overwrite); (D4) the updater of the stored chain key is monotone: evaluated abstractly over the orderings {new<stored, new=stored, new>stored} it never writes when new<stored and always writes when new>stored; (D5) the counter sealed into the headers and used as nonce is the stored counter + 1 and the chain key stored afterwards carries stored counter + 1 (same increment on both sides). Not decided: that every envelope opens at a receiver (C01/C02), behaviour under real parallel runs, datastore atomicity.",
+		Explanation: "Decides, for every schedule at once, the locking and arithmetic shape that makes counters unique: (D1) in SealEnvelope the read of the own chain key, the sealing (secretbox.Seal, Sign), the write of the next precomputed key and the write of the advanced chain key all happen with the secret store's message mutex write-held, acquired once before the first of them, with no release of that mutex anywhere in the code reachable from those steps; (D3) every Put on the chain-key namespace that can overwrite an existing entry is reached only on call paths holding that write lock (creation puts, dominated by the 'no chain key stored' outcome of a lookup, are exempt: they cannot overwrite); (D4) the updater of the stored chain key is monotone: evaluated abstractly over the orderings {new<stored, new=stored, new>stored} it never writes when new<stored and always writes when new>stored; (D6) the own chain key is looked up, generated on a miss and stored inside one write-locked critical section; the updater fails when it cannot read the stored key; (D5) the counter sealed into the headers and used as nonce is the stored counter + 1 and the chain key stored afterwards carries stored counter + 1 (same increment on both sides). Not decided: that every envelope opens at a receiver (C01/C02), behaviour under real parallel runs, datastore atomicity.",
 		Trusted:     []string{"go/ssa (x/tools v0.29.0)", "sync.RWMutex semantics", "lock identity by owner type + field (one message mutex per secret store)"},
 		Assumptions: []string{"a secret store is not shared between two datastores; the datastore's Put is atomic per key"},
-		Floors:      map[string]int{"D1": 3, "D3": 3, "D4": 3, "D5": 3},
+		Floors:      map[string]int{"D1": 3, "D3": 3, "D4": 4, "D5": 3, "D6": 1},
 		Run:         runC09,
 	})
 }
@@ -240,6 +240,106 @@ func runC09(c *Ctx) {
 
 	// ---- D5: sealed counter = stored+1 ; stored-after = stored+1
 	checkCounterIncrements(c, "D5", seal)
+
+	// ---- D6: the own chain key is looked up, generated and stored in one write-locked section
+	checkOwnKeyCreationAtomic(c, "D6", class)
+}
+
+// freshChainKeyFuncs: module functions that build a DeviceChainKey from crypto/rand.
+func freshChainKeyFuncs(w *World) map[*ssa.Function]bool {
+	out := map[*ssa.Function]bool{}
+	dck := namedType(w, pkgTypes, "DeviceChainKey")
+	for _, fn := range w.ModFuncs {
+		if fnPkg(fn).Path() != pkgSecret || fn.Signature.Results().Len() == 0 {
+			continue
+		}
+		pt, ok := fn.Signature.Results().At(0).Type().(*types.Pointer)
+		if !ok || dck == nil || !types.Identical(pt.Elem(), dck) {
+			continue
+		}
+		if len(callsIn(fn, keyIs("crypto/rand.Read", "io.ReadFull"))) > 0 {
+			out[fn] = true
+		}
+	}
+	return out
+}
+
+// checkOwnKeyCreationAtomic: in every function that generates a fresh chain key when the
+// lookup of the stored one misses, the lookup, the generation and the store all run with the
+// message mutex write-held, with no release between the lookup and the store. Otherwise two
+// first uses race: both miss, the loser's store is ignored by the register-once guard, and
+// it hands out (and announces) a chain key that was never stored.
+func checkOwnKeyCreationAtomic(c *Ctx, rule, class string) {
+	w := c.W
+	ei := w.effects()
+	li := w.locks()
+	fresh := freshChainKeyFuncs(w)
+	n := 0
+	for _, fn := range w.ModFuncs {
+		if fnPkg(fn).Path() != pkgSecret {
+			continue
+		}
+		var gen []ssa.CallInstruction
+		for _, e := range w.callGraph().callees[fn] {
+			if fresh[e.Callee] {
+				gen = append(gen, e.Site)
+			}
+		}
+		if len(gen) == 0 {
+			continue
+		}
+		n++
+		c.analysed(fn)
+		construct := fnName(fn) + "+get-or-create"
+		var lookups, stores []effectSite
+		for _, s := range ei.sitesIn(fn) {
+			if s.has(eff("Get", nsChainKey)) && s.pureLookup() {
+				lookups = append(lookups, s)
+			}
+			if s.has(eff("Put", nsChainKey)) {
+				stores = append(stores, s)
+			}
+		}
+		if len(lookups) == 0 || len(stores) == 0 {
+			c.fail(rule, construct, fn.Pos(), "a fresh chain key is generated without a lookup of the stored one and a store in the same function: get-or-create is not atomic")
+			continue
+		}
+		bad := ""
+		for _, s := range append(append([]effectSite{}, lookups...), stores...) {
+			if !li.heldAt(s.Instr.(ssa.Instruction)).holds(class, 'W') {
+				bad = fmt.Sprintf("%s at %s runs without %s write-held", s.Effects[0], c.pos(posOf(s.Instr)), class)
+			}
+		}
+		for _, g := range gen {
+			if !li.heldAt(g.(ssa.Instruction)).holds(class, 'W') {
+				bad = fmt.Sprintf("the key is generated at %s without %s write-held", c.pos(posOf(g)), class)
+			}
+		}
+		// no release between a lookup and a store
+		for _, b := range fn.Blocks {
+			for _, in := range b.Instrs {
+				ci, ok := in.(ssa.CallInstruction)
+				if !ok {
+					continue
+				}
+				op, ok := lockOpOf(ci)
+				if !ok || op.Class != class || op.Acquire || op.Deferred {
+					continue
+				}
+				for _, l := range lookups {
+					for _, st := range stores {
+						if instrReaches(l.Instr.(ssa.Instruction), in) && instrReaches(in, st.Instr.(ssa.Instruction)) {
+							bad = fmt.Sprintf("%s is released at %s between the lookup and the store", class, c.pos(posOf(ci)))
+						}
+					}
+				}
+			}
+		}
+		c.check(bad == "", rule, construct, fn.Pos(), "lookup, generation and store of the own chain key share one write-locked section", "own chain key get-or-create is not atomic: "+bad+" (two first uses can both miss; the loser announces a key that was never stored)")
+	}
+	if n == 0 {
+		c.undecided(rule, "get-or-create", token.NoPos, "no function generating a fresh chain key found")
+	}
 }
 
 // calleesAt returns the module callees of call site in fn.
@@ -316,7 +416,7 @@ func checkMonotoneUpdaters(c *Ctx, rule string) {
 			name       string
 			newC, oldC int64
 			wantPut    string // never | always | any
-		}{{"new<stored", 5, 9, "never"}, {"new=stored", 7, 7, "any"}, {"new>stored", 9, 5, "always"}} {
+		}{{"new<stored", 5, 9, "never"}, {"new=stored", 7, 7, "any"}, {"new>stored", 9, 5, "always"}, {"lookup-fails", 9, 5, "error"}} {
 			ev := &Evaluator{W: w}
 			storedTag := "STORED"
 			ev.Cfg = EvalConfig{
@@ -339,6 +439,10 @@ func checkMonotoneUpdaters(c *Ctx, rule string) {
 						if pt, ok := f.Signature.Results().At(0).Type().(*types.Pointer); ok && dck != nil && types.Identical(pt.Elem(), dck) {
 							for e2 := range ei.summaryOf(f) {
 								if eff("Get", nsChainKey)(e2) {
+									if sc.wantPut == "error" {
+										// the read of the stored chain key fails
+										return []AVal{aNil{}, aNonNil{Tag: "error"}}, true
+									}
 									o := e.newObj(st, storedTag)
 									return []AVal{aPtr{ID: o.ID, Sym: true}, aNil{}}, true
 								}
@@ -394,6 +498,8 @@ func checkMonotoneUpdaters(c *Ctx, rule string) {
 			switch {
 			case trunc > 0:
 				c.undecided(rule, construct, fn.Pos(), "abstract evaluation truncated (loop in the updater): cannot decide monotonicity")
+			case sc.wantPut == "error":
+				c.check(succ == 0, rule, construct, fn.Pos(), "a failed read of the stored chain key fails the update", fmt.Sprintf("when the stored chain key cannot be read the updater reports success on %d path(s) without having stored the new key: the envelope already sealed is handed out and its counter is reused", succ))
 			case sc.wantPut == "never":
 				c.check(succWithPut == 0, rule, construct, fn.Pos(), "no write when the candidate counter is lower than the stored one", "the stored chain key can be overwritten by one with a LOWER counter (rewind)")
 			case sc.wantPut == "always":
